@@ -204,10 +204,11 @@ def ed25519(ctx, world, ev):
                "candidate y is %s" % show(yp, maxdepth=7), site)
         if oky:
             check_hkdf(ctx, "H4", "Ed25519.arbitrary_element", yp if not isinstance(yp, Sym) else y0, INFO_ELEM, Const(48), seed, site)
-        okx = isinstance(x, App) and x.f.startswith("fn:") and x.args == (yp,) and e2.policy.classify(gm.func_by_qual(world, x.f[3:])) == "leaf"
+        rc_ = gm.root_call(world, x)
+        okx = rc_ is not None and rc_[1] == yp and e2.policy.classify(rc_[0]) == "leaf"
         whyx = ""
         if okx:
-            okx, whyx = gm.sqrt_helper_ok(world, ev, gm.func_by_qual(world, x.f[3:]))
+            okx, whyx = gm.sqrt_helper_ok(world, ev, rc_[0], rc_[2])
         ctx.ob("H6", "x coordinate", okx, "x = xrecover(candidate), the even root, no sign choice (%s)" % whyx if okx else
                "x coordinate is %s, expected the even square root of (y^2-1)/(dy^2+1) of the candidate %s" % (show(x, maxdepth=4), whyx), site)
         # on-curve, identity skip, L-torsion assert
